@@ -1003,3 +1003,135 @@ vk_harness!(c17_reply_is_split_at_commas_outside_quotes, {
     vk_cover!(nvars == 3 && fields != 3, "reach: redo");
     core::mem::forget(r);
 });
+
+// ---------------------------------------------------------------------------------------------------------------
+// C06: SWAP; C01: NEXT; C07: MID$ assignment — one VM step each
+
+//@ prop: C06
+//@ tier: quick
+//@ unwind: 12
+//@ encodes: Runtime::r#swap; Stack::pop_2
+//@ bounds: two values on the stack, each an Integer, a Single, a Double (symbolic payloads) or a 1-character string; one value below them
+vk_harness!(c06_swap_step, {
+    let mut r = Runtime::default();
+    r.stack.push(Val::Integer(5)).unwrap();
+    let (k1, k2) = (vk::any_below(4), vk::any_below(4));
+    let (a, b) = (vk::any_i16(), vk::any_i16());
+    let mk = |k: u8, x: i16, s: &str| match k {
+        0 => Val::Integer(x),
+        1 => Val::Single(x as f32),
+        2 => Val::Double(x as f64),
+        _ => Val::String(s.into()),
+    };
+    r.stack.push(mk(k1, a, "P")).unwrap();
+    r.stack.push(mk(k2, b, "Q")).unwrap();
+    let got = r.r#swap();
+    vk_check!(r.stack.len() == 3, "C06: SWAP leaves both values on the stack");
+    let (first, second) = (r.stack.get(1).cloned(), r.stack.get(2).cloned());
+    if k1 == k2 {
+        // the code generator stores the top of the stack into the FIRST variable, then the next into the SECOND: the order
+        // on the stack must be unchanged for the two stores to exchange the variables
+        vk_check!(got.is_ok(), "C06: SWAP of two same-typed variables succeeds");
+        vk_check!(first == Some(mk(k1, a, "P")) && second == Some(mk(k2, b, "Q")), "C06: SWAP hands both values on for the exchange");
+    } else {
+        match got {
+            Err(e) => vk_check!(ec::code_of(&e) == ec::TYPE_MISMATCH, "C06: SWAP of differently typed variables is TYPE MISMATCH"),
+            Ok(()) => vk_check!(false, "C06: SWAP accepted mixed types"),
+        }
+        // the statement is abandoned, so the variables keep their values; the two operands stay on the stack in either order
+        let same = first == Some(mk(k1, a, "P")) && second == Some(mk(k2, b, "Q"));
+        let flipped = first == Some(mk(k2, b, "Q")) && second == Some(mk(k1, a, "P"));
+        vk_check!(same || flipped, "C06: a rejected SWAP neither loses nor alters a value");
+    }
+    vk_cover!(k1 == 3 && k2 == 3, "reach: swap strings");
+    vk_cover!(k1 != k2, "reach: mixed types");
+    core::mem::forget(r);
+});
+
+//@ prop: C07
+//@ tier: quick
+//@ unwind: 12
+//@ encodes: Runtime::r#letmid; usize::try_from(Val); Rc<str>::try_from(Val)
+//@ bounds: target string fixed to ABCD, inserted string fixed to xy; position and length any Integer
+vk_harness!(c07_mid_assignment_step, {
+    let mut r = Runtime::default();
+    let (pos, len) = (vk::any_i16(), vk::any_i16());
+    r.stack.push(Val::String("ABCD".into())).unwrap();
+    r.stack.push(Val::String("xy".into())).unwrap();
+    r.stack.push(Val::Integer(len)).unwrap();
+    r.stack.push(Val::Integer(pos)).unwrap();
+    let got = r.r#letmid();
+    if pos <= 0 || len < 0 {
+        vk_check!(got.is_err(), "C07: MID$ assignment with position 0 or a negative argument is a BASIC error");
+    } else {
+        vk_check!(got.is_ok(), "C07: MID$ assignment with valid arguments succeeds");
+        // characters pos..pos+min(len, 2) of ABCD are replaced, the length never changes
+        let orig = [b'A', b'B', b'C', b'D'];
+        let ins = [b'x', b'y'];
+        let mut want = orig;
+        let mut used = 0usize;
+        let mut i = 0usize;
+        while i < 4 {
+            if i + 1 >= pos as usize && used < len as usize && used < 2 {
+                want[i] = ins[used];
+                used += 1;
+            }
+            i += 1;
+        }
+        match r.stack.last() {
+            Some(Val::String(s)) => {
+                let b = s.as_bytes();
+                vk_check!(b.len() == 4 && b[0] == want[0] && b[1] == want[1] && b[2] == want[2] && b[3] == want[3],
+                    "C07: MID$(A$,p,n)=B$ overwrites at most n characters from position p and never changes the length");
+            }
+            _ => vk_check!(false, "C07: MID$ assignment leaves the new string on the stack"),
+        }
+    }
+    vk_cover!(pos == 4 && len >= 2, "reach: replacement cut off at the end");
+    vk_cover!(pos == 2 && len == 1, "reach: one character replaced");
+    core::mem::forget(r);
+});
+
+//@ prop: C01
+//@ tier: quick
+//@ unwind: 12
+//@ caps: VEC=6
+//@ encodes: Runtime::r#next; Var::fetch; Var::store; Operation::sum; Operation::less
+//@ bounds: one FOR frame (limit, step, variable I%, loop address) with Integer limit, step and current value all symbolic; one value below the frame
+vk_harness!(c01_next_step, {
+    let mut r = Runtime::default();
+    let (cur, step, to) = (vk::any_i16(), vk::any_i16(), vk::any_i16());
+    let addr = vk::any_u16() as usize;
+    let pc0 = vk::any_u16() as usize;
+    r.pc = pc0;
+    crate::mach::vh_var::raw_insert(&mut r.vars, "I%", Val::Integer(cur));
+    r.stack.push(Val::Integer(9)).unwrap();
+    r.stack.push(Val::Integer(to)).unwrap();
+    r.stack.push(Val::Integer(step)).unwrap();
+    r.stack.push(Val::String("I%".into())).unwrap();
+    r.stack.push(Val::Next(addr)).unwrap();
+    let got = r.r#next("I%".into());
+    let exact = cur as i32 + step as i32;
+    if exact > 32767 || exact < -32768 {
+        vk_check!(got.is_err(), "C01: NEXT that overflows the loop variable is an error");
+    } else {
+        vk_check!(got.is_ok(), "C01: NEXT with a pending FOR succeeds");
+        let now = crate::mach::vh_var::raw_get(&r.vars, "I%");
+        let stored = match now {
+            Some(Val::Integer(v)) => v as i32,
+            None => 0,
+            _ => 99999,
+        };
+        vk_check!(stored == exact, "C01: NEXT adds the step to the loop variable");
+        let done = if step < 0 { exact < to as i32 } else { exact > to as i32 };
+        if done {
+            vk_check!(r.pc == pc0 && r.stack.len() == 1, "C01: a finished loop falls through and its frame is gone");
+        } else {
+            vk_check!(r.pc == addr && r.stack.len() == 5, "C01: an unfinished loop jumps back to its body and keeps its frame");
+            vk_check!(matches!(r.stack.last(), Some(Val::Next(a)) if *a == addr), "C01: the frame is pushed back unchanged");
+        }
+    }
+    vk_cover!(step < 0 && exact >= -32768 && exact < to as i32, "reach: descending loop finished");
+    vk_cover!(step > 0 && exact <= to as i32, "reach: ascending loop continues");
+    core::mem::forget(r);
+});
